@@ -149,11 +149,13 @@ func doOp(op, mbox, mid string, hdrs hdrT) (errText string) {
 		}
 	}()
 	h := mailbox.NewDirHandler(mbox, false)
-	if err := h.Prepare(); err != nil {
-		return err.Error()
+	if op != "ProcessInboundNoPrepare" { // (the folders exist: a handler on an existing mailbox, used without Prepare)
+		if err := h.Prepare(); err != nil {
+			return err.Error()
+		}
 	}
 	switch op {
-	case "ProcessInbound":
+	case "ProcessInbound", "ProcessInboundNoPrepare", "ProcessInboundBatch":
 		m := fbb.NewMessage(fbb.Private, "LA2BBB")
 		m.Header.Set("Mid", mid)
 		m.AddTo("LA1AAA")
@@ -169,7 +171,17 @@ func doOp(op, mbox, mid string, hdrs hdrT) (errText string) {
 				m = pm
 			}
 		}
-		if err := h.ProcessInbound(m); err != nil {
+		batch := []*fbb.Message{m}
+		if op == "ProcessInboundBatch" {
+			// several messages handed over in one call: the hostile one first, an ordinary one last
+			g := fbb.NewMessage(fbb.Private, "LA2BBB")
+			g.Header.Set("Mid", "GOODBATCH001")
+			g.AddTo("LA1AAA")
+			g.SetSubject("ordinary")
+			g.SetBody("ordinary message in the same batch\r\n")
+			batch = append(batch, g)
+		}
+		if err := h.ProcessInbound(batch...); err != nil {
 			return err.Error()
 		}
 	case "GetInboundAnswer":
@@ -265,12 +277,17 @@ func MainConfine(args []string) int {
 	}
 	defer w.Close()
 	ops := []string{"ProcessInbound", "GetInboundAnswer", "SetDeferred", "SetSent"}
+	opsSpecial := []string{"ProcessInbound", "GetInboundAnswer", "SetDeferred", "SetSent", "ProcessInboundNoPrepare", "ProcessInboundBatch"}
 	nEsc := 0
 	for ci, c := range cases {
 		if !c.confined {
 			nEsc++
 		}
-		for oi, op := range ops {
+		caseOps := ops
+		if c.src != "plan" && c.src != "seeded" {
+			caseOps = opsSpecial
+		}
+		for oi, op := range caseOps {
 			// plan MIDs that are confined are run with every 3rd op only (they cannot show anything)
 			if c.confined && c.src == "plan" && (ci+oi)%3 != 0 {
 				continue
@@ -280,6 +297,9 @@ func MainConfine(args []string) int {
 			// the system temporary directory is not part of the mailbox either: point it into the watched tree
 			os.MkdirAll(filepath.Join(sandbox, "systmp"), 0755)
 			os.Setenv("TMPDIR", filepath.Join(sandbox, "systmp"))
+			// ... and neither is the process's working directory
+			os.MkdirAll(filepath.Join(sandbox, "cwd"), 0755)
+			os.Chdir(filepath.Join(sandbox, "cwd"))
 			var hdrs hdrT
 			for _, kv := range c.hdrs {
 				hdrs = append(hdrs, [2]string{kv[0], strings.ReplaceAll(kv[1], "{SANDBOX}", sandbox)})
@@ -305,6 +325,7 @@ func MainConfine(args []string) int {
 			ev := rec.Event{"op": "FsOp", "call": op, "mid": fmt.Sprintf("%q", c.mid), "confined": c.confined, "touchedOutside": len(ch) > 0,
 				"changes": ch, "err": errText, "exit": exit, "panic": strings.HasPrefix(errText, "panic:")}
 			w.Write(map[string]interface{}{"src": c.src}, []rec.Event{ev})
+			os.Chdir(*tmp)
 			os.RemoveAll(sandbox)
 		}
 	}
